@@ -89,3 +89,14 @@ Theorem C01_fetch_once : forall c os u hops,
   NoDup (map fst (run_fetched c os (seed0 u hops))) /\ NoDup (map snd (run_fetched c os (seed0 u hops))).
 Proof. exact e_fetch_once. Qed.
 Print Assumptions C01_fetch_once.
+
+(* Per-worker asset concurrency: the archiver fetches the nodes of the working level in parallel
+   goroutines, each writing its own node.  Whatever order they finish in (any concurrency bound,
+   any interleaving of the fetches), the stage's result is the tree the model computes. *)
+From Coq Require Import Permutation.
+From ZenoV Require Import Stage.ArchOrder.
+Theorem C01_archive_order_irrelevant : forall o t ns,
+  NoDup (ids t) -> Permutation (nodes_at (max_depth t) t) ns ->
+  fold_left (arch_step o) ns t = archive o t.
+Proof. exact archive_order_irrelevant. Qed.
+Print Assumptions C01_archive_order_irrelevant.
